@@ -353,3 +353,40 @@ Fixpoint spec_run (k : kind) (s : spec) (tr : list ev) : option spec :=
 Definition oracle (k : kind) (tr : list ev) : bool :=
   match spec_run k spec_init tr with Some _ => true | None => false end.
 
+
+(* ------------------------------------- NEGATIVE model: why poll must be ONE section
+   OneshotReceiver::poll cut into two critical sections — first the test for a value / a
+   dropped sender, then (after cloning the waker outside) the registration, with no re-check.
+   This is NOT the code of /repo; it is the granularity of seeded change C34b.  Props/C34.v shows
+   that this machine loses a wake-up, i.e. that the theorems really depend on poll being one
+   step (the correspondence run checks that granularity on the real code with a second thread
+   released from inside the poll). *)
+Inductive sop : Type :=
+| SAtomic (o : op)          (* any step of the real machine *)
+| SPollCheck (w : nat)      (* first section of the split poll *)
+| SPollRegister (w : nat).  (* second section: store the waker *)
+
+Definition oneshot_split_step (s : oneshot) (o : sop) : oneshot * out :=
+  match o with
+  | SAtomic o => oneshot_step s o
+  | SPollCheck _ =>
+      if o_recv s then
+        match oi_data (o_in s) with
+        | Some v => (mkO (mkOI None (oi_waker (o_in s)) (oi_has_sender (o_in s))) (o_senders s) true,
+                     mkout (RReady v) [])
+        | None => if negb (oi_has_sender (o_in s)) then (s, mkout RClosed [])
+                  else (s, mkout RPending [])
+        end
+      else (s, skip)
+  | SPollRegister w =>
+      if o_recv s then
+        (mkO (mkOI (oi_data (o_in s)) (Some w) (oi_has_sender (o_in s))) (o_senders s) true, mkout RUnit [])
+      else (s, skip)
+  end.
+Definition split_run (s : oneshot) (ops : list sop) : oneshot :=
+  fold_left (fun s o => fst (oneshot_split_step s o)) ops s.
+Fixpoint split_outs (s : oneshot) (ops : list sop) : list out :=
+  match ops with
+  | [] => []
+  | o :: t => snd (oneshot_split_step s o) :: split_outs (fst (oneshot_split_step s o)) t
+  end.
